@@ -49,6 +49,8 @@ def build_all(ctx):
 
 
 def check(ctx):
+    ctx.rule("R03.10", "a mesh restored from a file carries the quantities the operators are built from under their own names: edge lengths, dual edge "
+                       "lengths, directions, areas are read back into the attributes they were written from (shared with C14 R14.1 / R14.12)", 4)
     ctx.rule("R03.9", "the solver builds the operators it uses with pinning exactly when a terminal value is configured "
                       "(so that R03.5 speaks about the operators in use)", 1)
     ctx.rule("R03.8", "Mesh/EdgeMesh geometry (sites, edges, lengths, dual lengths, areas) is written by the constructors only", 1)
@@ -232,6 +234,13 @@ def check(ctx):
            where=fbo.fq, construct="mu operators == default builders", loc=loc(fbo, fbo.node),
            message="mu operators are built with extra arguments: " + "; ".join((d1 + d2 + d3 + d4)[:2]),
            consequence="an identity row or link variable in the mu operators is a hidden current source")
+    from ..report import Shared
+    from . import c14
+    sh = Shared(ctx, {"R14.12": "R03.10", "R14.1": "R03.10"}, only=lambda inst: inst.startswith(("EdgeMesh", "Mesh")),
+                consequence="operators built on a device or mesh reloaded from HDF5 use swapped or missing geometry (e.g. dual edge lengths in "
+                            "place of edge lengths): gradient, divergence and Laplacian no longer satisfy the discrete identities")
+    c14.roundtrips(sh)
+    c14.key_attribute_agreement(sh)
     ctx.decline("positivity of dual edge lengths / connectivity of the mesh (geometric runtime facts); "
                 "negative semi-definiteness and kernel=constants follow from the checked stencil form for W>0 on a connected mesh")
     from .c06 import wiring
